@@ -118,51 +118,24 @@ theorem all_updateOnly {P : Entry → Prop} (hP : ∀ e t, P e → P { e with tr
 /-! ### handlers keep entry-level invariants -/
 
 section handlers
-variable {pt : Product} {P : Entry → Prop}
+variable {P : Entry → Prop}
 
-theorem applyEcomaxItems_inv (hP : ∀ e t, P e → P { e with triple := t })
-    (hnew : ∀ d pos t, (tableOf pt .ecomax)[pos]? = some d → P (newEntry .ecomax d pos t 0 0))
+theorem applyItems_inv {tbl : List Gen.Desc} {mk : Gen.Desc → Nat → P2.Triple → Entry} {skip : Bool}
+    (hP : ∀ e t, P e → P { e with triple := t })
+    (hnew : ∀ d pos t, tbl[pos]? = some d → P (mk d pos t))
     {old : DS} (ho : ∀ e ∈ old, P e) :
-    ∀ (items : List (Nat × Triple)) (ds : DS), (∀ e ∈ ds, P e) → ∀ e ∈ applyEcomaxItems pt old ds items, P e := by
+    ∀ (items : P2.Params) (ds : DS), (∀ e ∈ ds, P e) → ∀ e ∈ applyItems tbl mk skip old ds items, P e := by
   intro items
   induction items with
   | nil => intro ds h; exact h
   | cons it rest ih =>
     intro ds h
     obtain ⟨pos, t⟩ := it
-    unfold applyEcomaxItems
+    unfold applyItems
     split
-    · exact ih ds h
-    · next d hd => exact ih _ (all_upsert hP ho h (hnew d pos t hd))
-
-theorem applyMixerItems_inv {m : Nat} (hP : ∀ e t, P e → P { e with triple := t })
-    (hnew : ∀ d pos t, (tableOf pt .mixer)[pos]? = some d → P (newEntry .mixer d pos t m 0))
-    {old : DS} (ho : ∀ e ∈ old, P e) :
-    ∀ (items : List (Nat × Triple)) (ds : DS), (∀ e ∈ ds, P e) → ∀ e ∈ applyMixerItems pt m old ds items, P e := by
-  intro items
-  induction items with
-  | nil => intro ds h; exact h
-  | cons it rest ih =>
-    intro ds h
-    obtain ⟨pos, t⟩ := it
-    unfold applyMixerItems
-    split
-    · exact h
-    · next d hd => exact ih _ (all_upsert hP ho h (hnew d pos t hd))
-
-theorem applyThermostatItems_inv {tIdx n : Nat} (hP : ∀ e t, P e → P { e with triple := t })
-    (hnew : ∀ d pos t, Gen.thermostat[pos]? = some d → P (newEntry .thermostat d pos t tIdx (tIdx * n)))
-    {old : DS} (ho : ∀ e ∈ old, P e) :
-    ∀ (items : List (Nat × Triple)) (ds : DS), (∀ e ∈ ds, P e) → ∀ e ∈ applyThermostatItems tIdx n old ds items, P e := by
-  intro items
-  induction items with
-  | nil => intro ds h; exact h
-  | cons it rest ih =>
-    intro ds h
-    obtain ⟨pos, t⟩ := it
-    unfold applyThermostatItems
-    split
-    · exact h
+    · split
+      · exact ih ds h
+      · exact h
     · next d hd => exact ih _ (all_upsert hP ho h (hnew d pos t hd))
 
 theorem foldl_inv {α : Type} (f : DS → α → DS) (hf : ∀ ds a, (∀ e ∈ ds, P e) → ∀ e ∈ f ds a, P e) :
@@ -173,21 +146,137 @@ theorem foldl_inv {α : Type} (f : DS → α → DS) (hf : ∀ ds a, (∀ e ∈ 
   | cons a rest ih => intro ds h; exact ih _ (hf ds a h)
 
 theorem applyScheduleItems_inv (hP : ∀ e t, P e → P { e with triple := t })
-    (hnew : ∀ d pos t, Gen.scheduleParams[pos]? = some d → P (newEntry .schedule d pos t 0 0))
-    {old : DS} (ho : ∀ e ∈ old, P e) (items : List (Nat × Triple)) (ds : DS) (h : ∀ e ∈ ds, P e) :
+    (hnew : ∀ d pos t, Gen.scheduleParams[pos]? = some d → P (mkSchedule d pos t))
+    {old : DS} (ho : ∀ e ∈ old, P e) (items : P2.Params) (ds : DS) (h : ∀ e ∈ ds, P e) :
     ∀ e ∈ applyScheduleItems old items ds, P e := by
   unfold applyScheduleItems
   split
-  · apply foldl_inv _ _ _ _ h
-    intro ds a hds
-    split
-    · next d hd => exact all_upsert hP ho hds (hnew d a.1 a.2 hd)
-    · exact hds
+  · exact applyItems_inv hP hnew ho items ds h
   · apply foldl_inv _ _ _ _ h
     intro ds a hds
     split
     · exact all_updateOnly hP ho hds
     · exact hds
+
+/-- items that cannot produce the name `n` leave what is stored under `n` alone -/
+theorem find_applyItems_other {tbl : List Gen.Desc} {mk : Gen.Desc → Nat → P2.Triple → Entry} {skip : Bool}
+    (hmk : ∀ d pos t, (mk d pos t).name = d.name) (old : DS) (n : String) :
+    ∀ (items : P2.Params) (ds : DS),
+      (∀ it ∈ items, ∀ d, tbl[it.1]? = some d → d.name ≠ n) →
+      find (applyItems tbl mk skip old ds items) n = find ds n := by
+  intro items
+  induction items with
+  | nil => intro ds _; rfl
+  | cons it rest ih =>
+    intro ds h
+    obtain ⟨pos, t⟩ := it
+    unfold applyItems
+    split
+    · split
+      · exact ih ds (fun it hit => h it (by simp [hit]))
+      · rfl
+    · next d hd =>
+      rw [ih _ (fun it hit => h it (by simp [hit])), upsert_eq, find_setEntry_ne]
+      rw [upsertResult_name, hmk]
+      exact h (pos, t) (by simp) d hd
+
+/-- **generic read slot**: items with strictly increasing positions, names unique in the table: the
+triple of a described position ends up under that description's name, in the entry `upsert` makes
+of it (the existing same-class parameter with its triple replaced, or a new one with this index) -/
+theorem read_slot_items {tbl : List Gen.Desc} {mk : Gen.Desc → Nat → P2.Triple → Entry} {skip : Bool}
+    (hmk : ∀ d pos t, (mk d pos t).name = d.name)
+    (huniq : ∀ (i j : Nat) (a b : Gen.Desc), tbl[i]? = some a → tbl[j]? = some b → a.name = b.name → i = j) (old : DS) :
+    ∀ (items : P2.Params) (ds : DS), items.Pairwise (fun a b => a.1 < b.1) →
+      ∀ pos t, (pos, t) ∈ items → ∀ d, tbl[pos]? = some d →
+      find (applyItems tbl mk skip old ds items) d.name = some (upsertResult old (mk d pos t)) := by
+  intro items
+  induction items with
+  | nil => intro ds _ pos t h; cases h
+  | cons it rest ih =>
+    intro ds hs pos t hmem d hd
+    obtain ⟨p0, t0⟩ := it
+    obtain ⟨hhead, htail⟩ := List.pairwise_cons.mp hs
+    unfold applyItems
+    rcases List.mem_cons.mp hmem with h | h
+    · obtain ⟨rfl, rfl⟩ := Prod.mk.inj h
+      simp only [hd]
+      rw [find_applyItems_other hmk, upsert_eq]
+      · have := find_setEntry_self ds (upsertResult old (mk d pos t))
+        rwa [upsertResult_name, hmk] at this
+      · intro it hit d' hd' heq
+        have := hhead it hit
+        have := huniq _ _ _ _ hd' hd heq
+        omega
+    · have hlt : p0 < pos := hhead (pos, t) h
+      have hp0 : p0 < tbl.length := by
+        have := (List.getElem?_eq_some_iff.mp hd).1; omega
+      have : tbl[p0]? = some tbl[p0] := List.getElem?_eq_getElem hp0
+      simp only [this]
+      exact ih _ htail pos t h d hd
+
+/-- the same for `skip = true` handlers (unknown positions are skipped), positions merely distinct -/
+theorem read_slot_items_distinct {tbl : List Gen.Desc} {mk : Gen.Desc → Nat → P2.Triple → Entry}
+    (hmk : ∀ d pos t, (mk d pos t).name = d.name)
+    (huniq : ∀ (i j : Nat) (a b : Gen.Desc), tbl[i]? = some a → tbl[j]? = some b → a.name = b.name → i = j) (old : DS) :
+    ∀ (items : P2.Params) (ds : DS), items.Pairwise (fun a b => a.1 ≠ b.1) →
+      ∀ pos t, (pos, t) ∈ items → ∀ d, tbl[pos]? = some d →
+      find (applyItems tbl mk true old ds items) d.name = some (upsertResult old (mk d pos t)) := by
+  intro items
+  induction items with
+  | nil => intro ds _ pos t h; cases h
+  | cons it rest ih =>
+    intro ds hs pos t hmem d hd
+    obtain ⟨p0, t0⟩ := it
+    obtain ⟨hhead, htail⟩ := List.pairwise_cons.mp hs
+    unfold applyItems
+    rcases List.mem_cons.mp hmem with h | h
+    · obtain ⟨rfl, rfl⟩ := Prod.mk.inj h
+      simp only [hd]
+      rw [find_applyItems_other hmk, upsert_eq]
+      · have := find_setEntry_self ds (upsertResult old (mk d pos t))
+        rwa [upsertResult_name, hmk] at this
+      · intro it hit d' hd' heq
+        exact hhead it hit (huniq _ _ _ _ hd' hd heq).symm
+    · split
+      · simp only [if_true]; exact ih _ htail pos t h d hd
+      · exact ih _ htail pos t h d hd
+
+/-- when every existing parameter a response can name is of the class the response would create,
+`applyItems` never replaces a parameter object: what is stored under an existing name keeps
+everything but its triple (index, offset, owner, width) -/
+theorem applyItems_stable {tbl : List Gen.Desc} {mk : Gen.Desc → Nat → P2.Triple → Entry} {skip : Bool}
+    (hmk : ∀ d pos t, (mk d pos t).name = d.name) {old : DS}
+    (hcls : ∀ d pos t, tbl[pos]? = some d → ∀ e0, find old d.name = some e0 → sameClass e0 (mk d pos t) = true)
+    (e : Entry) (hold : find old e.name = some e) :
+    ∀ (items : P2.Params) (ds : DS), (∃ x, find ds e.name = some { e with triple := x }) →
+      ∃ y, find (applyItems tbl mk skip old ds items) e.name = some { e with triple := y } := by
+  intro items
+  induction items with
+  | nil => intro ds h; exact h
+  | cons it rest ih =>
+    intro ds h
+    obtain ⟨pos, t⟩ := it
+    unfold applyItems
+    split
+    · split
+      · exact ih ds h
+      · exact h
+    · next d hd =>
+      apply ih
+      rw [upsert_eq]
+      by_cases hn : d.name = e.name
+      · have hres : upsertResult old (mk d pos t) = { e with triple := (mk d pos t).triple } := by
+          unfold upsertResult
+          rw [hmk, hn, hold]
+          have := hcls d pos t hd e (by rw [hn]; exact hold)
+          simp [this]
+        refine ⟨(mk d pos t).triple, ?_⟩
+        rw [hres]
+        exact find_setEntry_self ds { e with triple := (mk d pos t).triple }
+      · obtain ⟨x, hx⟩ := h
+        refine ⟨x, ?_⟩
+        rw [find_setEntry_ne _ _ (by rw [upsertResult_name, hmk]; exact hn)]
+        exact hx
 
 end handlers
 
@@ -222,41 +311,119 @@ structure WorldOK (pt : Product) (w : World) : Prop where
   mix : ∀ p ∈ w.mixers, ∀ e ∈ p.2, EntryOK pt e ∧ OnMixer p.1 e
   thr : ∀ p ∈ w.thermostats, ∀ e ∈ p.2, EntryOK pt e ∧ OnThermostat p.1 e
 
-theorem applyMixers_inv {pt : Product} :
-    ∀ (blocks : List (Nat × List (Nat × Triple))) (mixers : List (Nat × DS)),
-      (∀ p ∈ mixers, ∀ e ∈ p.2, EntryOK pt e ∧ OnMixer p.1 e) →
-      ∀ p ∈ applyMixers pt mixers blocks, ∀ e ∈ p.2, EntryOK pt e ∧ OnMixer p.1 e := by
+theorem applyBlocks_inv {Q : Nat → DS → Prop} {g : Nat → P2.Params → DS → DS}
+    (hg : ∀ i items ds, Q i ds → Q i (g i items ds)) (h0 : ∀ i, Q i []) :
+    ∀ (blocks : P2.Blocks) (devs : List (Nat × DS)), (∀ p ∈ devs, Q p.1 p.2) →
+      ∀ p ∈ applyBlocks g devs blocks, Q p.1 p.2 := by
   intro blocks
   induction blocks with
-  | nil => intro mixers h; exact h
+  | nil => intro devs h; exact h
   | cons b rest ih =>
-    intro mixers h
-    obtain ⟨m, items⟩ := b
-    unfold applyMixers
-    apply ih
-    apply updDev_inv (Q := fun i ds => ∀ e ∈ ds, EntryOK pt e ∧ OnMixer i e) h
-    · intro ds hds
-      exact applyMixerItems_inv (P := fun e => EntryOK pt e ∧ OnMixer m e) (fun e t h => h)
-        (fun d pos t hd => ⟨entryOK_new t m 0 hd, rfl, rfl, rfl⟩) hds items ds hds
-    · intro e he; cases he
+    intro devs h
+    obtain ⟨i, items⟩ := b
+    unfold applyBlocks
+    exact ih _ (updDev_inv h (hg i items) (h0 i))
 
-theorem applyThermostats_inv {pt : Product} :
-    ∀ (blocks : List (Nat × List (Nat × Triple))) (ths : List (Nat × DS)),
-      (∀ p ∈ ths, ∀ e ∈ p.2, EntryOK pt e ∧ OnThermostat p.1 e) →
-      ∀ p ∈ applyThermostats ths blocks, ∀ e ∈ p.2, EntryOK pt e ∧ OnThermostat p.1 e := by
+theorem applyMixers_inv {pt : Product} (blocks : P2.Blocks) (mixers : List (Nat × DS))
+    (h : ∀ p ∈ mixers, ∀ e ∈ p.2, EntryOK pt e ∧ OnMixer p.1 e) :
+    ∀ p ∈ applyMixers pt mixers blocks, ∀ e ∈ p.2, EntryOK pt e ∧ OnMixer p.1 e := by
+  apply applyBlocks_inv (Q := fun i ds => ∀ e ∈ ds, EntryOK pt e ∧ OnMixer i e) _ _ blocks mixers h
+  · intro m items ds hds
+    exact applyItems_inv (P := fun e => EntryOK pt e ∧ OnMixer m e) (fun e t h => h)
+      (fun d pos t hd => ⟨entryOK_new (tr t) m 0 hd, rfl, rfl, rfl⟩) hds items ds hds
+  · intro i e he; cases he
+
+theorem applyThermostats_inv {pt : Product} (blocks : P2.Blocks) (ths : List (Nat × DS))
+    (h : ∀ p ∈ ths, ∀ e ∈ p.2, EntryOK pt e ∧ OnThermostat p.1 e) :
+    ∀ p ∈ applyThermostats ths blocks, ∀ e ∈ p.2, EntryOK pt e ∧ OnThermostat p.1 e := by
+  apply applyBlocks_inv (Q := fun i ds => ∀ e ∈ ds, EntryOK pt e ∧ OnThermostat i e) _ _ blocks ths h
+  · intro t items ds hds
+    exact applyItems_inv (P := fun e => EntryOK pt e ∧ OnThermostat t e) (fun e t h => h)
+      (fun d pos t' hd => ⟨entryOK_new (pt := pt) (k := .thermostat) (tr t') t (t * items.length) hd, rfl, rfl⟩)
+      hds items ds hds
+  · intro i e he; cases he
+
+/-! ### sub-device lookup through `updDev` / `applyBlocks` -/
+
+theorem find?_updMap (l : List (Nat × DS)) (i j : Nat) (f : DS → DS) :
+    (l.map (fun p => if p.1 == i then (p.1, f p.2) else p)).find? (fun p => p.1 == j) =
+      (l.find? (fun p => p.1 == j)).map (fun p => if p.1 == i then (p.1, f p.2) else p) := by
+  rw [List.find?_map]
+  congr 1
+  congr 1
+  funext p
+  simp only [Function.comp]
+  split <;> rfl
+
+theorem lookupDev_updDev_self (l : List (Nat × DS)) (i : Nat) (f : DS → DS) :
+    lookupDev (updDev l i f) i = some (f ((lookupDev l i).getD [])) := by
+  unfold updDev lookupDev
+  split
+  · next hany =>
+    rw [find?_updMap]
+    obtain ⟨p, hp, hpi⟩ := List.any_eq_true.mp hany
+    cases hf : l.find? (fun p => p.1 == i) with
+    | none => exact absurd hpi (by simpa using List.find?_eq_none.mp hf p hp)
+    | some q =>
+      have hq : q.1 = i := by simpa using List.find?_some (p := fun (p : Nat × DS) => p.1 == i) hf
+      simp [hq]
+  · next hany =>
+    have hnone : l.find? (fun p => p.1 == i) = none := by
+      rw [List.find?_eq_none]
+      intro p hp hpi
+      exact hany (List.any_eq_true.mpr ⟨p, hp, by simpa using hpi⟩)
+    rw [List.find?_append, hnone]
+    simp
+
+theorem lookupDev_updDev_other (l : List (Nat × DS)) {i j : Nat} (f : DS → DS) (h : j ≠ i) :
+    lookupDev (updDev l i f) j = lookupDev l j := by
+  unfold updDev lookupDev
+  split
+  · rw [find?_updMap]
+    cases hf : l.find? (fun p => p.1 == j) with
+    | none => rfl
+    | some q =>
+      have hq : q.1 = j := by simpa using List.find?_some hf
+      have : ¬ q.1 = i := by rw [hq]; exact h
+      simp [this]
+  · rw [List.find?_append]
+    have : (List.find? (fun p => p.1 == j) [(i, f [])]) = none := by
+      simp only [List.find?_cons, List.find?_nil]
+      have h2 : (i == j) = false := by simpa using fun h' : i = j => h h'.symm
+      simp [h2]
+    rw [this]; simp
+
+/-- with distinct block numbers, sub-device `i`'s dataset after all blocks is what ITS block made
+of its previous dataset -/
+theorem lookupDev_applyBlocks (g : Nat → P2.Params → DS → DS) :
+    ∀ (blocks : P2.Blocks) (devs : List (Nat × DS)), blocks.Pairwise (fun a b => a.1 < b.1) →
+      ∀ i items, (i, items) ∈ blocks →
+      lookupDev (applyBlocks g devs blocks) i = some (g i items ((lookupDev devs i).getD [])) := by
   intro blocks
   induction blocks with
-  | nil => intro ths h; exact h
+  | nil => intro devs _ i items h; cases h
   | cons b rest ih =>
-    intro ths h
-    obtain ⟨t, items⟩ := b
-    unfold applyThermostats
-    apply ih
-    apply updDev_inv (Q := fun i ds => ∀ e ∈ ds, EntryOK pt e ∧ OnThermostat i e) h
-    · intro ds hds
-      exact applyThermostatItems_inv (P := fun e => EntryOK pt e ∧ OnThermostat t e) (fun e t h => h)
-        (fun d pos tr hd => ⟨entryOK_new (pt := pt) (k := .thermostat) tr t (t * items.length) hd, rfl, rfl⟩) hds items ds hds
-    · intro e he; cases he
+    intro devs hs i items hmem
+    obtain ⟨i0, items0⟩ := b
+    obtain ⟨hhead, htail⟩ := List.pairwise_cons.mp hs
+    unfold applyBlocks
+    rcases List.mem_cons.mp hmem with h | h
+    · obtain ⟨rfl, rfl⟩ := Prod.mk.inj h
+      -- later blocks have other numbers
+      have hrest : ∀ (rest' : P2.Blocks) (devs' : List (Nat × DS)), (∀ b ∈ rest', i < b.1) →
+          lookupDev (applyBlocks g devs' rest') i = lookupDev devs' i := by
+        intro rest'
+        induction rest' with
+        | nil => intro devs' _; rfl
+        | cons b' r' ih' =>
+          intro devs' hlt
+          obtain ⟨j, itj⟩ := b'
+          unfold applyBlocks
+          rw [ih' _ (fun b hb => hlt b (by simp [hb]))]
+          exact lookupDev_updDev_other _ _ (by have := hlt (j, itj) (by simp); simp at this; omega)
+      rw [hrest rest _ hhead, lookupDev_updDev_self]
+    · have hlt : i0 < i := hhead (i, items) h
+      rw [ih _ htail i items h, lookupDev_updDev_other _ _ (by omega)]
 
 theorem setValue_inv {P : Entry → Prop} (hP : ∀ e t, P e → P { e with triple := t }) {ds : DS} {name : String}
     {e : Entry} (hds : ∀ x ∈ ds, P x) (hf : find ds name = some e) (v : Nat) :
@@ -272,43 +439,42 @@ theorem step_ok {pt : Product} {w : World} (h : WorldOK pt w) (ev : Event) : Wor
     simp only [step]
     split
     · exact h
-    · next items _ =>
+    · next items _ _ =>
       refine ⟨?_, h.mix, h.thr⟩
-      exact applyEcomaxItems_inv (P := fun e => EntryOK pt e ∧ OnEcomax e) (fun e t h => h)
-        (fun d pos t hd => ⟨entryOK_new t 0 0 hd, by simp [OnEcomax, newEntry]⟩) h.eco items _ h.eco
+      exact applyItems_inv (P := fun e => EntryOK pt e ∧ OnEcomax e) (fun e t h => h)
+        (fun d pos t hd => ⟨entryOK_new (tr t) 0 0 hd, by simp [OnEcomax, newEntry]⟩) h.eco items _ h.eco
   | mixerParams msg =>
     simp only [step]
     split
     · exact h
-    · next blocks _ => exact ⟨h.eco, applyMixers_inv blocks _ h.mix, h.thr⟩
+    · next blocks _ _ => exact ⟨h.eco, applyMixers_inv blocks _ h.mix, h.thr⟩
   | thermostatsAvailable n => exact ⟨h.eco, h.mix, h.thr⟩
   | thermostatParams msg =>
     simp only [step]
     split
     · exact h
-    · split
-      · exact h
-      · next profile blocks _ =>
-        refine ⟨?_, h.mix, applyThermostats_inv blocks _ h.thr⟩
-        have hf : ∀ e ∈ w.ecomax.filter (fun x => !(x.name == Gen.thermostatProfile.name)), EntryOK pt e ∧ OnEcomax e :=
-          fun e he => h.eco e (List.mem_filter.mp he).1
-        cases profile with
-        | none => exact hf
-        | some t =>
-          intro e he
-          simp only [List.mem_cons] at he
-          rcases he with rfl | he
-          · exact ⟨⟨Gen.thermostatProfile, by simp [newEntry, tableOf], rfl, rfl, rfl⟩, by simp [OnEcomax, newEntry]⟩
-          · exact hf e he
+    · exact h
+    · next profile blocks _ _ =>
+      refine ⟨?_, h.mix, applyThermostats_inv blocks _ h.thr⟩
+      have hf : ∀ e ∈ w.ecomax.filter (fun x => !(x.name == Gen.thermostatProfile.name)), EntryOK pt e ∧ OnEcomax e :=
+        fun e he => h.eco e (List.mem_filter.mp he).1
+      cases profile with
+      | none => exact hf
+      | some t =>
+        intro e he
+        simp only [List.mem_cons] at he
+        rcases he with rfl | he
+        · exact ⟨⟨Gen.thermostatProfile, by simp [newEntry, tableOf], rfl, rfl, rfl⟩, by simp [OnEcomax, newEntry]⟩
+        · exact hf e he
   | schedules msg =>
     simp only [step]
     split
     · exact h
     · exact ⟨h.eco, h.mix, h.thr⟩
-    · next items _ =>
+    · next ss ps _ _ =>
       refine ⟨?_, h.mix, h.thr⟩
       exact applyScheduleItems_inv (P := fun e => EntryOK pt e ∧ OnEcomax e) (fun e t h => h)
-        (fun d pos t hd => ⟨entryOK_new (pt := pt) (k := .schedule) t 0 0 hd, by simp [OnEcomax, newEntry]⟩)
+        (fun d pos t hd => ⟨entryOK_new (pt := pt) (k := .schedule) (tr t) 0 0 hd, by simp [OnEcomax, newEntry, mkSchedule]⟩)
         h.eco _ _ h.eco
   | state on =>
     refine ⟨?_, h.mix, h.thr⟩
@@ -328,7 +494,7 @@ theorem step_ok {pt : Product} {w : World} (h : WorldOK pt w) (ev : Event) : Wor
           subst hds
           exact ⟨setValue_inv (fun e t h => h) h.eco hf v, h.mix, h.thr⟩
         | mixer i =>
-          simp only [World.ds, Option.map_eq_some_iff] at hds
+          simp only [World.ds, lookupDev, Option.map_eq_some_iff] at hds
           obtain ⟨p, hp, rfl⟩ := hds
           have hpm := List.mem_of_find?_eq_some hp
           have hpi : p.1 = i := by simpa using List.find?_some hp
@@ -345,7 +511,7 @@ theorem step_ok {pt : Product} {w : World} (h : WorldOK pt w) (ev : Event) : Wor
             simp only [this]
             exact h.mix r hr
         | thermostat i =>
-          simp only [World.ds, Option.map_eq_some_iff] at hds
+          simp only [World.ds, lookupDev, Option.map_eq_some_iff] at hds
           obtain ⟨p, hp, rfl⟩ := hds
           have hpm := List.mem_of_find?_eq_some hp
           have hpi : p.1 = i := by simpa using List.find?_some hp
